@@ -167,10 +167,15 @@ def fde_insns(f, arch):
     if not f.get("ok", True):
         out += b"\x3c"                                     # unknown CFA opcode -> gimli error
     prev = 0
+    vendor_at = f.get("vendor_at") if arch == "a64" else None
+    vendor_done = False
     for off, row in f["rows"]:
         if off != prev:
             out += b"\x04" + struct.pack("<I", off - prev)  # DW_CFA_advance_loc4 (code_align = 1)
             prev = off
+        if vendor_at is not None and not vendor_done and off >= vendor_at:
+            out += b"\x2d"                                  # DW_CFA_AARCH64_negate_ra_state
+            vendor_done = True
         out += enc_row(row, regs["fp"], regs["ra"])
     return out
 
